@@ -85,4 +85,140 @@ theorem quo_le_of_ratio_le (a b t : Int) (ha : 0 ≤ a) (hb : 0 < b) (h : a * De
     have h5 := hbd.2.1
     linarith
 
+/-! monotonicity (for the accrual theorems) -/
+theorem chopRoundNonneg_mono (x y : Int) (hx : 0 ≤ x) (hxy : x ≤ y) : Dec.chopRoundNonneg x ≤ Dec.chopRoundNonneg y := by
+  have hy : 0 ≤ y := by omega
+  unfold Dec.chopRoundNonneg
+  rw [Int.tdiv_eq_ediv_of_nonneg hx, Int.tmod_eq_emod_of_nonneg hx, Int.tdiv_eq_ediv_of_nonneg hy, Int.tmod_eq_emod_of_nonneg hy]
+  unfold Dec.P Dec.half
+  simp only
+  split <;> split <;> (try split) <;> (try split) <;> (try split) <;> (try split) <;> (try split) <;> (try split) <;> omega
+
+theorem quo_eq_nonneg (a b : Int) (ha : 0 ≤ a) (hb : 0 < b) : Dec.quo a b = Dec.chopRoundNonneg (a * Dec.PP / b) := by
+  unfold Dec.quo Dec.chopRound
+  have hx := quo_nonneg_arg a b ha hb
+  have hnn : 0 ≤ a * Dec.PP := by
+    apply Int.mul_nonneg ha; unfold Dec.PP Dec.P; omega
+  have hneg : ¬ ((a * Dec.PP).tdiv b < 0) := by omega
+  simp only [hneg, if_false]
+  rw [Int.tdiv_eq_ediv_of_nonneg hnn]
+
+theorem quo_mono_left (a a' b : Int) (ha : 0 ≤ a) (haa : a ≤ a') (hb : 0 < b) : Dec.quo a b ≤ Dec.quo a' b := by
+  rw [quo_eq_nonneg a b ha hb, quo_eq_nonneg a' b (by omega) hb]
+  have hPP : (0:Int) ≤ Dec.PP := by unfold Dec.PP Dec.P; omega
+  apply chopRoundNonneg_mono
+  · exact Int.ediv_nonneg (Int.mul_nonneg ha hPP) (by omega)
+  · exact Int.ediv_le_ediv hb (Int.mul_le_mul_of_nonneg_right haa hPP)
+
+theorem quo_anti_right (a b b' : Int) (ha : 0 ≤ a) (hb : 0 < b) (hbb : b ≤ b') : Dec.quo a b' ≤ Dec.quo a b := by
+  rw [quo_eq_nonneg a b ha hb, quo_eq_nonneg a b' ha (by omega)]
+  have hPP : (0:Int) ≤ Dec.PP := by unfold Dec.PP Dec.P; omega
+  have hnn := Int.mul_nonneg ha hPP
+  apply chopRoundNonneg_mono
+  · exact Int.ediv_nonneg hnn (by omega)
+  · apply Int.le_ediv_of_mul_le hb
+    have h1 : a * Dec.PP / b' * b' ≤ a * Dec.PP := Int.ediv_mul_le _ (by omega)
+    have h2 : 0 ≤ a * Dec.PP / b' := Int.ediv_nonneg hnn (by omega)
+    have h3 : a * Dec.PP / b' * b ≤ a * Dec.PP / b' * b' := Int.mul_le_mul_of_nonneg_left hbb h2
+    omega
+
+theorem mul_ofInt (a b : Int) (ha : 0 ≤ a) (hb : 0 ≤ b) : Dec.mul (Dec.ofInt a) (Dec.ofInt b) = a * b * Dec.P := by
+  unfold Dec.mul Dec.ofInt Dec.chopRound
+  have hP : (0:Int) < Dec.P := by unfold Dec.P; omega
+  have hnn : 0 ≤ a * Dec.P * (b * Dec.P) := Int.mul_nonneg (Int.mul_nonneg ha (le_of_lt hP)) (Int.mul_nonneg hb (le_of_lt hP))
+  have : ¬ (a * Dec.P * (b * Dec.P) < 0) := by omega
+  simp only [this, if_false]
+  have he : a * Dec.P * (b * Dec.P) = (a * b * Dec.P) * Dec.P := by ring
+  rw [he]
+  have h0 : 0 ≤ a * b * Dec.P := Int.mul_nonneg (Int.mul_nonneg ha hb) (le_of_lt hP)
+  have hb3 := (chopRoundNonneg_bounds (a * b * Dec.P * Dec.P) (Int.mul_nonneg h0 (le_of_lt hP))).2.2 (Int.mul_emod_left _ _)
+  rw [hb3, Int.mul_ediv_cancel _ (by omega)]
+
+/-- `CalcAssetPrice` is monotone in the amount (non-negative amounts and price, positive decimals) -/
+theorem assetValue_mono (amt amt' price dec : Int) (h0 : 0 ≤ amt) (h : amt ≤ amt') (hp : 0 ≤ price) (hd : 0 < dec) :
+    assetValue amt price dec ≤ assetValue amt' price dec := by
+  unfold assetValue
+  rw [mul_ofInt amt price h0 hp, mul_ofInt amt' price (by omega) hp]
+  have hP : (0:Int) < Dec.P := by unfold Dec.P; omega
+  apply quo_mono_left
+  · exact Int.mul_nonneg (Int.mul_nonneg h0 hp) (le_of_lt hP)
+  · exact Int.mul_le_mul_of_nonneg_right (Int.mul_le_mul_of_nonneg_right h hp) (le_of_lt hP)
+  · unfold Dec.ofInt; exact Int.mul_pos hd hP
+
+
+/-- prices and decimals are non-negative (they are `uint64` / positive `sdk.Int`s in the stores) -/
+def EnvNonneg (e : Env) (p : Product) : Prop :=
+  0 ≤ p.outFixed ∧ ∀ a, a ∈ e.assets → 0 ≤ a.decimals ∧ ∀ pr, a.price = some pr → 0 ≤ pr
+
+theorem valueOf_mono (e : Env) (hn : ∀ a, a ∈ e.assets → 0 ≤ a.decimals ∧ ∀ pr, a.price = some pr → 0 ≤ pr)
+    (id : Nat) (d d' x x' : Int) (h0 : 0 ≤ d) (hdd : d ≤ d')
+    (h : e.valueOf id d = some x) (h' : e.valueOf id d' = some x') : x ≤ x' := by
+  unfold Env.valueOf at h h'
+  cases ha : e.asset? id with
+  | none => simp [ha] at h
+  | some a =>
+    have hmem : a ∈ e.assets := List.mem_of_find?_eq_some ha
+    simp only [ha] at h h'
+    cases hp : a.price with
+    | none => simp [hp] at h
+    | some pr =>
+      simp only [hp] at h h'
+      by_cases hd : a.decimals = 0
+      · simp [hd] at h
+      · simp only [hd, if_false, Option.some.injEq] at h h'
+        rw [← h, ← h']
+        have := hn a hmem
+        exact assetValue_mono d d' pr a.decimals h0 hdd (this.2 pr hp) (by omega)
+
+/-- more debt, lower ratio: the collateralisation ratio is antitone in the debt -/
+theorem vaultCR_anti_debt (e : Env) (p : Product) (amountIn d d' : Int) (cr cr' : Dec) (hn : EnvNonneg e p)
+    (h0 : 0 ≤ d) (hdd : d ≤ d') (h : vaultCR e p amountIn d = some cr) (h' : vaultCR e p amountIn d' = some cr') : cr' ≤ cr := by
+  unfold vaultCR at h h'
+  cases ha : e.asset? p.assetIn with
+  | none => simp [ha] at h
+  | some ai =>
+    cases hb : e.asset? p.assetOut with
+    | none => simp [ha, hb] at h
+    | some ao =>
+      simp only [ha, hb] at h h'
+      cases hv : e.valueOf p.assetIn amountIn with
+      | none => simp [hv] at h
+      | some vin =>
+        simp only [hv] at h h'
+        -- the two debt values
+        have key : ∀ (vo vo' : Dec),
+            (if p.outOracle then e.valueOf p.assetOut d else if ao.decimals = 0 then none else some (assetValue d p.outFixed ao.decimals)) = some vo →
+            (if p.outOracle then e.valueOf p.assetOut d' else if ao.decimals = 0 then none else some (assetValue d' p.outFixed ao.decimals)) = some vo' →
+            vo ≤ vo' := by
+          intro vo vo' e1 e2
+          by_cases ho : p.outOracle = true
+          · simp only [ho, if_true] at e1 e2
+            exact valueOf_mono e hn.2 p.assetOut d d' vo vo' h0 hdd e1 e2
+          · simp only [ho, Bool.false_eq_true, if_false] at e1 e2
+            by_cases hd : ao.decimals = 0
+            · simp [hd] at e1
+            · simp only [hd, if_false, Option.some.injEq] at e1 e2
+              rw [← e1, ← e2]
+              have hmem : ao ∈ e.assets := List.mem_of_find?_eq_some hb
+              exact assetValue_mono d d' p.outFixed ao.decimals h0 hdd hn.1 (by have := (hn.2 ao hmem).1; omega)
+        generalize hvo : (if p.outOracle then e.valueOf p.assetOut d else if ao.decimals = 0 then none else some (assetValue d p.outFixed ao.decimals)) = o at h
+        generalize hvo' : (if p.outOracle then e.valueOf p.assetOut d' else if ao.decimals = 0 then none else some (assetValue d' p.outFixed ao.decimals)) = o' at h'
+        cases o with
+        | none => simp at h
+        | some vo =>
+          cases o' with
+          | none => simp at h'
+          | some vo' =>
+            have hle := key vo vo' hvo hvo'
+            simp only at h h'
+            by_cases h1 : vin ≤ 0
+            · simp [h1] at h
+            · by_cases h2 : vo ≤ 0
+              · simp [h1, h2] at h
+              · have h2' : ¬ (vo' ≤ 0) := fun hh => h2 (Int.le_trans hle hh)
+                simp only [h1, h2, h2', if_false, Option.some.injEq] at h h'
+                rw [← h, ← h']
+                exact quo_anti_right vin vo vo' (Int.le_of_lt (Int.not_le.mp h1)) (Int.not_le.mp h2) hle
+
+
 end Comdex.Liquidation
